@@ -226,6 +226,27 @@ func c20BtRowsWide() []*btpb.Row {
 	return f.rows
 }
 
+var c20BtFixtureHuge *c20Fx
+
+// c20BtRowsHuge: 5000 rows of one 2 KiB cell (about 10 MB): more than leveldb's 4 MiB write buffer, so part of the
+// table lives in table files on (memory or disk) storage rather than in the memtable; a full scan streams three messages.
+func c20BtRowsHuge() []*btpb.Row {
+	if c20BtFixtureHuge != nil {
+		return c20BtFixtureHuge.rows
+	}
+	val := make([]byte, 2048)
+	for i := range val {
+		val[i] = byte('a' + i%26)
+	}
+	f := &c20Fx{}
+	for i := 0; i < 5000; i++ {
+		f.rows = append(f.rows, &btpb.Row{Key: []byte(fmt.Sprintf("h%05d", i)), Families: []*btpb.Family{{Name: "f", Columns: []*btpb.Column{{Qualifier: []byte("q"),
+			Cells: []*btpb.Cell{{TimestampMicros: 1000, Value: val}}}}}}})
+	}
+	c20BtFixtureHuge = f
+	return f.rows
+}
+
 func c20BtRows() []*btpb.Row {
 	if c20BtFixture != nil {
 		return c20BtFixture.rows
@@ -267,7 +288,7 @@ func c20Build(c *fw.Ctx, p c20Param) *schedInst {
 	inst := &schedInst{}
 	if p.Side == "bt" {
 		var raw bttest.Rows
-		d := bt.NewDriverOn(p.Store, "", bt.PointStorage{Storage: bt.NewStorage(p.Store, ""), Quiet: p.Fix == "wide", OnCreate: func(n string, r bttest.Rows) {
+		d := bt.NewDriverOn(p.Store, "", bt.PointStorage{Storage: bt.NewStorage(p.Store, ""), Quiet: p.Fix != "", OnCreate: func(n string, r bttest.Rows) {
 			if n == tblT {
 				raw = r
 			}
@@ -280,6 +301,9 @@ func c20Build(c *fw.Ctx, p c20Param) *schedInst {
 		fixRows := c20BtRows()
 		if p.Fix == "wide" {
 			fixRows = c20BtRowsWide()
+		}
+		if p.Fix == "huge" {
+			fixRows = c20BtRowsHuge()
 		}
 		for _, r := range fixRows {
 			raw.ReplaceOrInsert(proto.Clone(r).(*btpb.Row))
@@ -580,6 +604,11 @@ func runC20Race(c *fw.Ctx, item *int64) {
 		for _, o := range ops {
 			scen = append(scen, c20Param{Side: "bt", Store: eng, Fix: "wide", Threads: []string{"ReadBig", o}})
 		}
+	}
+	// the same on a table that no longer fits leveldb's memtable (its older rows are in table files): a scan that
+	// has given up the table lock must survive the table being cleared / dropped by prefix under it
+	for _, o := range []string{"DropAll", "DropPrefix", "GC"} {
+		scen = append(scen, c20Param{Side: "bt", Store: "mem", Fix: "huge", Threads: []string{"ReadBig", o}})
 	}
 	for _, store := range []string{"mem", "file"} {
 		for i := range c20GcsOps {
